@@ -335,7 +335,7 @@ SITE_OF = {
 INV2_NAMES = ['wfx2', 'sched', 'next', 'svc2', 'ren', 'prio', 'rows2', 'blk2', 'srv2', 'idle2', 'clk2', 'cnt2', 'clk2r', 'noinv', 'slot']
 
 
-def check_trace(tr, drv, max_frames=80, mask=None, detail=False, inv_mask=None):
+def check_trace(tr, drv, max_frames=80, mask=None, detail=False, inv_mask=None, grid=None):
     """-> dict(frames, mismatch = first divergence that touches the mask (all fields when mask is None), other = number of
     frames that diverged only outside the mask)"""
     cfg = tr.cfg
@@ -400,6 +400,20 @@ def check_trace(tr, drv, max_frames=80, mask=None, detail=False, inv_mask=None):
     hist, spawned = [], []
     want_jrn = inv_mask is not None and 'jrn2' in inv_mask
     res['jrn_frames'] = 0
+    # C20: grid = g > 1 when every time value of the configuration is a multiple of g: the hypotheses (timetable and time draws on the grid)
+    # and the conclusion (every date / duration of the snapshot and of the records on the grid) of DateSum2.event_step_grid /
+    # event_step_records on the real snapshots and records (dispatch_model 42)
+    def on_grid(state, draws, recs, frame, label):
+        gv = drv.ask('m42', sx.dump([grid, ecfg, state, draws, recs]))
+        go = parse(gv[1]) if gv[0] == 'M' else None
+        if not isinstance(go, list) or any(x != 1 for x in go):
+            res['mismatch'] = {'frame': frame, 'what': 'grid (DateSum2): a date or duration of the real snapshot / records is not a multiple of g',
+                               'g': grid, 'got [timetable, draws, state, records on grid]': go, 'label': label}
+            return False
+        res['grid_frames'] = res.get('grid_frames', 0) + 1
+        return True
+    if grid and not on_grid(enc_state(prev, cfg, nxt, now if isinstance(now, int) else 0, cyc), [[], [], [], [], [], []], [], 0, None):
+        return res
     b0 = invs(enc_state(prev, cfg, nxt, now if isinstance(now, int) else 0, cyc))
     if b0 is None or any(x != 1 for x in b0):
         bad = [INV2_NAMES[i] for i, x in enumerate(b0 or []) if x != 1]
@@ -435,6 +449,9 @@ def check_trace(tr, drv, max_frames=80, mask=None, detail=False, inv_mask=None):
         if not isinstance(f['next_date'], int):
             got[0] = exp_state[0]          # every date infinite: the implementation's clock becomes inf, the model keeps it
         exp_recs = norm([enc_rec(e) for e in f['cev'] if e[0] == 'Record'])
+        # C20 (grid mode): the REAL snapshot and records first, whatever the model says: a date off the grid is a failing input of the property
+        if grid and isinstance(f['next_date'], int) and not on_grid(enc_state(f['snap'], cfg, f['next'], f['next_date'], cyc), draws_of(f['cev']), exp_recs, k + 1, f['label']):
+            return res
         d = diff_fields(got, exp_state, out[2], exp_recs)
         if any(out[3]):
             d.add(('top', 'draws_left'))
